@@ -32,10 +32,11 @@ def gen_cases(tier, seed):
     rngs = ["8-3", "8-15", "11-2", "9-5", "8 bis 3", "from 8 to 3", "10:30-1", "12-1", "7 - 11:30", "von 8 bis 15 uhr", "1-12", "8pm-3"]
     combos = [(a, b, c_, k) for a in pods for b in days for c_ in rngs for k in (0, 1, 2)]
     r.shuffle(combos)
-    for a, b, c_, k in (combos if tier == "thorough" else combos[:700]):
+    for a, b, c_, k in (combos if tier == "thorough" else combos[:400]):
         t = " ".join((("%s %s %s", "%s %s %s", "%s %s %s")[k] % ((a, b, c_), (b, a, c_), (b, c_, a))[k]).split())
         cases.append({"g": "podday-range", "t": t, "ts": r.choice(["2021-03-10T12:43:30", "2020-02-29T23:59:59", "2019-12-31T08:00:00", "2024-11-04T09:30:59"]),
-                      "o": {"latent_time": True, "max_stack_depth": r.choice([10, 0]), "relative_match_len": r.choice([1.0, 0.8]), "scorer": "shipped", "debug": False}})
+                      "o": {"latent_time": True, "max_stack_depth": r.choice([10, 0] if tier == "thorough" else [10, 10, 10, 0]), "relative_match_len": r.choice([1.0, 0.8]),
+                            "scorer": "shipped", "debug": False}})
     return cases
 
 
